@@ -48,6 +48,14 @@ PROPS = {
         stub=["node getter (simdag: every fetch parks, missing blocks, failing fetches)", "recording provider"],
         assumptions=COMMON_ASSUMPTIONS + ["handler options compose in the order given: each handler receives the error left by the handlers added before it", "the FetchGraph-over-blockservice half of the statement is checked under C05's harness, not here"],
     ),
+    "C46": dict(
+        harness="c46", pkg="peering", test="TestVerifC46", yield_pkgs=["peering"], level="exploration",
+        quick=dict(runs=16 * 1200, budget=90), thorough=dict(runs=16 * 15000, budget=1500),
+        rule="one case = 1-3 peers, a control task (AddPeer/RemovePeer/Start/Stop/sleep, <=10 quick / <=18 thorough ops), an environment task (connection drops, inbound connections, sleeps), a per-dial outcome plan (fail / ok / ok-then-dropped-at-once), a settle phase of 2..100 maximal back-offs in which every dial fails, and a scheduling tape with time advances up to 10 min; distinct = distinct event-log fingerprint; non-trivial = at least one context switch, time advance or injected fault",
+        real=["peering.PeeringService and peerHandler (timers, back-off with jitter, notifee)", "time.AfterFunc timers on the fake clock", "math/rand/v2 jitter through the seeded runtime"],
+        stub=["libp2p host/network (records Connect calls and their context state, answers per plan, emits notifications as scheduling points)", "conn manager (null)"],
+        assumptions=COMMON_ASSUMPTIONS + ["one Connect call with an already cancelled context per peer and stop/remove event is tolerated (the reconnect whose timer had fired before the stop); any further one means a timer was re-armed after the stop"],
+    ),
     "C02": dict(
         harness="c02", pkg="blockstore", test="TestVerifC02", yield_pkgs=["blockstore"], level="exploration",
         quick=dict(runs=16 * 2500, budget=90), thorough=dict(runs=16 * 60000, budget=1500),
